@@ -135,7 +135,8 @@ class World:
         return self.srcs.setdefault(ref, type("Src", (), {})())
     def cls(self, name):
         if name not in self.classes:
-            self.classes[name] = type(name, (AbstractSignal,), {})
+            # distinct classes; with case["same_name"] they all carry the same __name__ (identity, not the name, is what a waiter waits for)
+            self.classes[name] = type("Same" if self.case.get("same_name") else name, (AbstractSignal,), {})
         return self.classes[name]
     def act(self, a, me=None):
         xlog(("api",) + tuple(a))
